@@ -9,6 +9,7 @@
 package main
 
 import (
+	"bufio"
 	"crypto/sha256"
 	"fmt"
 	"go/ast"
@@ -2348,7 +2349,7 @@ func varInitOpt(f *ast.File, name string) ast.Expr {
 
 // ---------------------------------------------------------------- C19/C20: storage/db/db.go
 
-var verbRe = regexp.MustCompile(`^%[sdvq]`)
+var verbRe = regexp.MustCompile(`^%[sdvwq]`)
 
 // sprintfTokens: (0, arg index, 0) = %s, (1, arg index, 0) = %d, (2, byte, 0) = literal byte.
 func sprintfTokens(format, what string) string {
@@ -2358,7 +2359,7 @@ func sprintfTokens(format, what string) string {
 		if format[i] == '%' {
 			v := verbRe.FindString(format[i:])
 			switch v {
-			case "%s":
+			case "%s", "%v", "%w":
 				out = append(out, fmt.Sprintf("(0, %d, 0)", arg))
 			case "%d":
 				out = append(out, fmt.Sprintf("(1, %d, 0)", arg))
@@ -2544,6 +2545,10 @@ func intOf(e ast.Expr, env map[string]*big.Int, what string) *big.Int {
 			if y.Sign() != 0 {
 				return new(big.Int).Quo(x, y)
 			}
+		case token.OR:
+			return new(big.Int).Or(x, y)
+		case token.AND:
+			return new(big.Int).And(x, y)
 		case token.SHL:
 			if y.IsInt64() && y.Int64() >= 0 && y.Int64() < 4096 {
 				return wrap(new(big.Int).Lsh(x, uint(y.Int64())))
@@ -2998,6 +3003,671 @@ func dnfChar(e ast.Expr, codes map[string]int, what string) [][]atomT {
 	return dnf(e, c2, what)
 }
 
+// ---------------------------------------------------------------- C02: benchfmt/reader.go, files.go
+
+func readFacts(repo string) {
+	f := parseFile(repo, "benchfmt/reader.go")
+	ff := parseFile(repo, "benchfmt/files.go")
+	af := parseFile(repo, "benchfmt/internal/bytesconv/atoi.go")
+	reset := methodDecl(f, "Reader", "Reset")
+	scan := methodDecl(f, "Reader", "Scan")
+	kv := funcDecl(f, "parseKeyValueLine")
+	pb := methodDecl(f, "Reader", "parseBenchmarkLine")
+	ul := methodDecl(f, "Reader", "isUnitLine")
+	pu := methodDecl(f, "Reader", "parseUnitLine")
+	sf := funcDecl(f, "splitField")
+	se := methodDecl(f, "SyntaxError", "Error")
+	fi := methodDecl(ff, "Files", "init")
+	header("ReadFacts", "benchfmt/reader.go", "benchfmt/files.go", "benchfmt/internal/bytesconv/atoi.go")
+
+	// ---- scanner limit
+	bufCall := false
+	ast.Inspect(f, func(n ast.Node) bool {
+		if fun, _, ok := callOfNode(n); ok && strings.HasSuffix(fun, ".Buffer") {
+			bufCall = true
+		}
+		return true
+	})
+	newScanner := ""
+	ast.Inspect(reset.Body, func(n ast.Node) bool {
+		if as, ok := n.(*ast.AssignStmt); ok && len(as.Lhs) == 1 && src(as.Lhs[0]) == "r.s" {
+			newScanner = src(as.Rhs[0])
+		}
+		return true
+	})
+	pf("/-- Reset: `r.s = %s`; no call of Scanner.Buffer ⇒ the token limit is bufio.MaxScanTokenSize (value and error text taken from the Go standard library the extractor is built with) -/\n", newScanner)
+	pf("def scannerCtor : String := %s\ndef scannerBufferCalled : Bool := %v\ndef maxScanTokenSize : Nat := %d\ndef errTooLong : List Nat := %s\n", leanStr(newScanner), bufCall, bufio.MaxScanTokenSize, bytesOf(bufio.ErrTooLong.Error()))
+	var ioErrFmt string
+	ast.Inspect(scan.Body, func(n ast.Node) bool {
+		if fun, args, ok := callOfNode(n); ok && fun == "fmt.Errorf" {
+			ioErrFmt, _ = strLit(args[0])
+		}
+		return true
+	})
+	pf("/-- Scan: `r.err = fmt.Errorf(%s, fileName, line, err)`; elements (0,i,0)=%%s/%%v/%%w of argument i, (1,i,0)=%%d, (2,b,0)=byte b -/\n", strconv.Quote(ioErrFmt))
+	pf("def ioErrTokens : List (Nat × Nat × Nat) := %s\n", sprintfTokens(ioErrFmt, "Scan error"))
+	var seFmt string
+	ast.Inspect(se.Body, func(n ast.Node) bool {
+		if fun, args, ok := callOfNode(n); ok && fun == "fmt.Sprintf" {
+			seFmt, _ = strLit(args[0])
+		}
+		return true
+	})
+	pf("def syntaxErrorFormat : String := %s\ndef syntaxErrorTokens : List (Nat × Nat × Nat) := %s\n", leanStr(seFmt), sprintfTokens(seFmt, "SyntaxError.Error"))
+	var unknown string
+	ast.Inspect(reset.Body, func(n ast.Node) bool {
+		if x, ok := n.(*ast.IfStmt); ok && strings.Contains(src(x.Cond), "fileName") {
+			if as, ok := x.Body.List[0].(*ast.AssignStmt); ok {
+				unknown, _ = strLit(as.Rhs[0])
+			}
+		}
+		return true
+	})
+	pf("/-- Reset: the file name used when none is given -/\ndef unknownFileName : List Nat := %s\n", bytesOf(unknown))
+
+	// ---- prefixes
+	prefix := func(name string) string {
+		c, ok := varInit(f, name).(*ast.CallExpr)
+		if !ok || len(c.Args) != 1 {
+			die("%s is not []byte(\"…\")", name)
+		}
+		v, ok := strLit(c.Args[0])
+		if !ok {
+			die("%s is not []byte(\"…\")", name)
+		}
+		return v
+	}
+	bp, up := prefix("benchmarkPrefix"), prefix("unitPrefix")
+	pf("def benchmarkPrefix : List Nat := %s\ndef unitPrefix : List Nat := %s\n", bytesOf(bp), bytesOf(up))
+	skipLit := ""
+	ast.Inspect(pb.Body, func(n ast.Node) bool {
+		if sl, ok := n.(*ast.SliceExpr); ok && isIdent(sl.X, "line") && sl.Low != nil {
+			if fun, args, ok := callOf(sl.Low); ok && fun == "len" {
+				skipLit, _ = strLit(args[0])
+			}
+		}
+		return true
+	})
+	pf("/-- parseBenchmarkLine: `line = line[len(%s):]` -/\ndef benchmarkSkip : Nat := %d\n", strconv.Quote(skipLit), len(skipLit))
+	unitCmp := ""
+	ast.Inspect(ul.Body, func(n ast.Node) bool {
+		if fun, args, ok := callOfNode(n); ok && fun == "bytes.Equal" && len(args) == 2 {
+			unitCmp = src(args[1])
+		}
+		return true
+	})
+	pf("/-- isUnitLine: the first field is compared with -/\ndef unitLineComparesWith : String := %s\n", leanStr(unitCmp))
+
+	// ---- isSpace mask
+	mask := intOf(varInit(f, "isSpace"), nil, "isSpace")
+	var spaces []string
+	for i := 0; i < 64; i++ {
+		if mask.Bit(i) == 1 {
+			spaces = append(spaces, strconv.Itoa(i))
+		}
+	}
+	pf("/-- `const isSpace uint64 = %s` -/\ndef isSpaceMask : Nat := %s\ndef isSpaceBytes : List Nat := %s\n", src(varInit(f, "isSpace")), mask.String(), joinS(spaces))
+	var maskTests []string
+	ast.Inspect(sf.Body, func(n ast.Node) bool {
+		if x, ok := n.(*ast.IfStmt); ok && strings.Contains(src(x.Cond), "isSpace") {
+			maskTests = append(maskTests, strings.Join(strings.Fields(src(x.Cond)), ""))
+		}
+		return true
+	})
+	pf("def isSpaceTests : List String := %s\n", leanStrList(maskTests))
+
+	// ---- parseKeyValueLine
+	var kvConds []string
+	ast.Inspect(kv.Body, func(n ast.Node) bool {
+		if x, ok := n.(*ast.IfStmt); ok {
+			kvConds = append(kvConds, strings.Join(strings.Fields(src(x.Cond)), " "))
+		}
+		return true
+	})
+	pf("/-- the `if` conditions of parseKeyValueLine, in source order -/\ndef keyValueConds : List String := %s\n", leanStrList(kvConds))
+	var blanks []string
+	colon := -1
+	ast.Inspect(kv.Body, func(n ast.Node) bool {
+		switch x := n.(type) {
+		case *ast.ForStmt:
+			if x.Cond != nil && strings.Contains(src(x.Cond), "val[0]") {
+				ast.Inspect(x.Cond, func(m ast.Node) bool {
+					if bl, ok := m.(*ast.BasicLit); ok && bl.Kind == token.CHAR {
+						blanks = append(blanks, intOf(bl, nil, "blank").String())
+					}
+					return true
+				})
+			}
+		case *ast.BinaryExpr:
+			if x.Op == token.EQL && isIdent(x.X, "r") {
+				if bl, ok := x.Y.(*ast.BasicLit); ok && bl.Kind == token.CHAR {
+					colon = int(intOf(bl, nil, "colon").Int64())
+				}
+			}
+		}
+		return true
+	})
+	pf("/-- bytes that separate `key:` from the value; the rune that ends the key -/\ndef keyValueBlanks : List Nat := %s\ndef keyValueSep : Nat := %d\n", joinS(blanks), colon)
+
+	// ---- messages
+	var msgs, msgsB []string
+	collect := func(fd *ast.FuncDecl) {
+		ast.Inspect(fd.Body, func(n ast.Node) bool {
+			fun, args, ok := callOfNode(n)
+			if !ok || fun != "r.newSyntaxError" || len(args) != 1 {
+				return true
+			}
+			a := unparen(args[0])
+			if v, ok := strLit(a); ok {
+				msgs = append(msgs, leanStr(v))
+				msgsB = append(msgsB, bytesOf(v))
+			} else if be, ok := a.(*ast.BinaryExpr); ok && be.Op == token.ADD {
+				if v, ok := strLit(be.X); ok {
+					msgs = append(msgs, leanStr(v+"+"))
+					msgsB = append(msgsB, bytesOf(v))
+				}
+			} else if f2, a2, ok := callOf(a); ok && f2 == "fmt.Sprintf" {
+				v, _ := strLit(a2[0])
+				msgs = append(msgs, leanStr(v))
+				msgsB = append(msgsB, bytesOf(v))
+			}
+			return true
+		})
+	}
+	collect(pb)
+	collect(pu)
+	pf("/-- messages of r.newSyntaxError in parseBenchmarkLine and parseUnitLine, source order (`+`: a prefix of err.Err.Error()) -/\n")
+	pf("def messagesS : List String := %s\ndef messages : List (List Nat) := %s\n", joinS(msgs), joinS(msgsB))
+	errText := func(name string) string {
+		c, ok := varInit(af, name).(*ast.CallExpr)
+		if !ok || src(c.Fun) != "errors.New" {
+			die("%s is not errors.New(…)", name)
+		}
+		v, _ := strLit(c.Args[0])
+		return v
+	}
+	pf("/-- bytesconv.ErrSyntax / ErrRange texts -/\ndef errSyntax : List Nat := %s\ndef errRange : List Nat := %s\n", bytesOf(errText("ErrSyntax")), bytesOf(errText("ErrRange")))
+	metaFmt := ""
+	ast.Inspect(pu.Body, func(n ast.Node) bool {
+		if fun, args, ok := callOfNode(n); ok && fun == "fmt.Sprintf" {
+			metaFmt, _ = strLit(args[0])
+		}
+		return true
+	})
+	pf("def metadataConflictTokens : List (Nat × Nat × Nat) := %s\n", sprintfTokens(metaFmt, "metadata conflict"))
+	eqByte := -1
+	ast.Inspect(pu.Body, func(n ast.Node) bool {
+		if fun, args, ok := callOfNode(n); ok && fun == "bytes.IndexByte" && len(args) == 2 {
+			eqByte = int(intOf(args[1], nil, "IndexByte").Int64())
+		}
+		return true
+	})
+	pf("/-- parseUnitLine: `bytes.IndexByte(f, c)` -/\ndef unitFieldSep : Nat := %d\n", eqByte)
+
+	// ---- files.go
+	labelFmt, labelSep, stdin := "", "", ""
+	ast.Inspect(fi.Body, func(n ast.Node) bool {
+		if fun, args, ok := callOfNode(n); ok {
+			if fun == "fmt.Sprintf" {
+				labelFmt, _ = strLit(args[0])
+			}
+			if fun == "strings.Index" && len(args) == 2 {
+				labelSep, _ = strLit(args[1])
+			}
+		}
+		if be, ok := n.(*ast.BinaryExpr); ok && be.Op == token.EQL && isIdent(be.X, "path") {
+			if v, ok := strLit(be.Y); ok {
+				stdin = v
+			}
+		}
+		return true
+	})
+	if labelFmt == "" || labelSep == "" || stdin == "" {
+		die("Files.init: label format / separator / stdin name not found")
+	}
+	pf("/-- Files.init: disambiguation `fmt.Sprintf(%s, path, n)`, label separator, stdin name -/\n", strconv.Quote(labelFmt))
+	pf("def fileLabelTokens : List (Nat × Nat × Nat) := %s\ndef fileLabelSep : List Nat := %s\ndef stdinName : List Nat := %s\n", sprintfTokens(labelFmt, "file label"), bytesOf(labelSep), bytesOf(stdin))
+	footer("ReadFacts", reset, scan, kv, pb, ul, pu, sf, se, fi)
+}
+
+// ---------------------------------------------------------------- C06/C07/C09: benchproc parse + special keys + orders
+
+// runeSetOf lists the rune literals compared with `ch`/`r` by == in an expression.
+func runeSetOf(e ast.Node) []string {
+	var out []string
+	ast.Inspect(e, func(n ast.Node) bool {
+		if be, ok := n.(*ast.BinaryExpr); ok && be.Op == token.EQL {
+			if bl, ok := be.Y.(*ast.BasicLit); ok && bl.Kind == token.CHAR {
+				out = append(out, intOf(bl, nil, "rune").String())
+			}
+		}
+		return true
+	})
+	return out
+}
+
+// strCompares lists string literals compared by == with an expression whose source is lhs.
+func strCompares(n ast.Node, lhs string) []string {
+	var out []string
+	seen := map[string]bool{}
+	ast.Inspect(n, func(m ast.Node) bool {
+		if be, ok := m.(*ast.BinaryExpr); ok && be.Op == token.EQL && src(be.X) == lhs {
+			if v, ok := strLit(be.Y); ok && !seen[v] {
+				seen[v] = true
+				out = append(out, v)
+			}
+		}
+		if sw, ok := m.(*ast.SwitchStmt); ok && sw.Tag != nil && src(sw.Tag) == lhs {
+			for _, c := range sw.Body.List {
+				for _, l := range c.(*ast.CaseClause).List {
+					if v, ok := strLit(l); ok && !seen[v] {
+						seen[v] = true
+						out = append(out, v)
+					}
+				}
+			}
+		}
+		return true
+	})
+	return out
+}
+
+func parseFacts(repo string) {
+	tf := parseFile(repo, "benchproc/internal/parse/tok.go")
+	pp := parseFile(repo, "benchproc/internal/parse/projection.go")
+	bf := parseFile(repo, "benchproc/filter.go")
+	bp := parseFile(repo, "benchproc/projection.go")
+	be := parseFile(repo, "benchproc/extract.go")
+	bs := parseFile(repo, "benchproc/sort.go")
+	isOp := funcDecl(tf, "isOp")
+	isStartOp := funcDecl(tf, "isStartOp")
+	isSpace := funcDecl(tf, "isSpace")
+	next := methodDecl(tf, "tokenizer", "next")
+	qw := methodDecl(tf, "tokenizer", "quotedWord")
+	bw := methodDecl(tf, "tokenizer", "bareWord")
+	re := methodDecl(tf, "tokenizer", "regexp")
+	rpu := funcDecl(tf, "regexpParseUntil")
+	quote := funcDecl(tf, "quoteWord")
+	lessFn := funcDecl(bs, "less")
+	newEx := funcDecl(be, "newExtractor")
+	header("ParseFacts", "benchproc/internal/parse/tok.go", "benchproc/internal/parse/projection.go", "benchproc/filter.go", "benchproc/projection.go", "benchproc/extract.go", "benchproc/sort.go")
+
+	// ---- tok.go
+	pf("/-- isOp: the operator runes; isStartOp: isOp plus these -/\ndef opRunes : List Nat := %s\n", joinS(runeSetOf(isOp.Body)))
+	callsIsOp := strings.Contains(src(isStartOp.Body), "isOp(ch)")
+	pf("def startOpExtra : List Nat := %s\ndef startOpIncludesOp : Bool := %v\n", joinS(runeSetOf(isStartOp.Body)), callsIsOp)
+	pf("/-- isSpace: byte accepted without decoding -/\ndef spaceFastByte : List Nat := %s\n", joinS(runeSetOf(isSpace.Body)))
+	// token kinds and delimiters in next/quotedWord/bareWord/regexp
+	var kinds []string
+	var kindsS []string
+	for _, fd := range []*ast.FuncDecl{next, qw, bw, re} {
+		ast.Inspect(fd.Body, func(n ast.Node) bool {
+			if fun, args, ok := callOfNode(n); ok && fun == "t.tok" && len(args) == 3 {
+				if bl, ok := args[0].(*ast.BasicLit); ok {
+					kinds = append(kinds, intOf(bl, nil, "kind").String())
+					kindsS = append(kindsS, fd.Name.Name+":"+bl.Value)
+				}
+			}
+			return true
+		})
+	}
+	pf("/-- literal token kinds passed to t.tok, by function (%s) -/\ndef tokenKinds : List Nat := %s\n", strings.Join(kindsS, " "), joinS(kinds))
+	pf("/-- next: the bytes that start a regexp / a quoted word -/\ndef nextDelims : List Nat := %s\n", joinS(runeSetOf(next.Body)))
+	var qDelims []string
+	ast.Inspect(qw.Body, func(n ast.Node) bool {
+		if bl, ok := n.(*ast.BasicLit); ok && bl.Kind == token.CHAR {
+			qDelims = append(qDelims, intOf(bl, nil, "quote").String())
+		}
+		return true
+	})
+	pf("/-- quotedWord: character literals in source order (end quote, escape, kind) -/\ndef quotedWordChars : List Nat := %s\n", joinS(qDelims))
+	kw := strCompares(bw.Body, "word")
+	pf("/-- bareWord: the keywords -/\ndef keywordsS : List String := %s\ndef keywords : List (List Nat) := %s\n", leanStrList(kw), bytesList(kw))
+	reDelim := ""
+	ast.Inspect(re.Body, func(n ast.Node) bool {
+		if fun, args, ok := callOfNode(n); ok && fun == "regexpParseUntil" && len(args) == 2 {
+			reDelim, _ = strLit(args[1])
+		}
+		return true
+	})
+	pf("/-- regexp: the closing delimiter; regexpParseUntil: the bracket bytes of its switch -/\ndef regexpDelim : List Nat := %s\n", bytesOf(reDelim))
+	var brackets []string
+	ast.Inspect(rpu.Body, func(n ast.Node) bool {
+		if cc, ok := n.(*ast.CaseClause); ok {
+			for _, l := range cc.List {
+				if bl, ok := l.(*ast.BasicLit); ok && bl.Kind == token.CHAR {
+					brackets = append(brackets, intOf(bl, nil, "bracket").String())
+				}
+			}
+		}
+		return true
+	})
+	pf("def regexpBrackets : List Nat := %s\n", joinS(brackets))
+	var qRunes []string
+	ast.Inspect(quote.Body, func(n ast.Node) bool {
+		if cc, ok := n.(*ast.CaseClause); ok {
+			for _, l := range cc.List {
+				qRunes = append(qRunes, intOf(l, nil, "quoteWord").String())
+			}
+		}
+		return true
+	})
+	pf("/-- quoteWord: runes that force quoting (besides operators, spaces, leading - or *) -/\ndef quoteWordRunes : List Nat := %s\n", joinS(qRunes))
+	var tokMsgs []string
+	for _, fd := range []*ast.FuncDecl{qw, re} {
+		ast.Inspect(fd.Body, func(n ast.Node) bool {
+			if fun, args, ok := callOfNode(n); ok && fun == "t.error" && len(args) == 1 {
+				if v, ok := strLit(args[0]); ok {
+					tokMsgs = append(tokMsgs, v)
+				}
+			}
+			return true
+		})
+	}
+	pf("def tokenizerMessages : List String := %s\n", leanStrList(tokMsgs))
+
+	// ---- special keys and orders
+	fk := strCompares(bf, "q.Key")
+	pf("/-- benchproc/filter.go: keys treated specially (`q.Key == …`) -/\ndef filterSpecialKeysS : List String := %s\ndef filterSpecialKeys : List (List Nat) := %s\n", leanStrList(fk), bytesList(fk))
+	mk := methodDecl(bp, "ProjectionParser", "makeProjection")
+	pk := strCompares(mk.Body, "proj.Key")
+	pf("/-- benchproc/projection.go makeProjection: `switch proj.Key` cases and `proj.Key == …` -/\ndef projSpecialKeysS : List String := %s\ndef projSpecialKeys : List (List Nat) := %s\n", leanStrList(pk), bytesList(pk))
+	po := strCompares(mk.Body, "proj.Order")
+	pf("def projOrdersS : List String := %s\ndef projOrders : List (List Nat) := %s\n", leanStrList(po), bytesList(po))
+	var defOrder, fixedOrder string
+	ast.Inspect(pp, func(n ast.Node) bool {
+		if as, ok := n.(*ast.AssignStmt); ok && len(as.Lhs) == 1 && src(as.Lhs[0]) == "f.Order" {
+			if v, ok := strLit(as.Rhs[0]); ok {
+				if defOrder == "" {
+					defOrder = v
+				} else {
+					fixedOrder = v
+				}
+			}
+		}
+		return true
+	})
+	pf("/-- parse/projection.go: `f.Order = …` default and for an explicit value list -/\ndef defaultOrder : List Nat := %s\ndef fixedOrder : List Nat := %s\n", bytesOf(defOrder), bytesOf(fixedOrder))
+	bo, ok := varInit(bs, "builtinOrders").(*ast.CompositeLit)
+	if !ok {
+		die("builtinOrders")
+	}
+	var orders []string
+	var numFn *ast.FuncLit
+	for _, el := range bo.Elts {
+		kvp := el.(*ast.KeyValueExpr)
+		k, _ := strLit(kvp.Key)
+		orders = append(orders, k)
+		if k == "num" {
+			numFn, _ = kvp.Value.(*ast.FuncLit)
+		}
+	}
+	pf("def builtinOrdersS : List String := %s\ndef builtinOrders : List (List Nat) := %s\n", leanStrList(orders), bytesList(orders))
+	ek := strCompares(newEx.Body, "key")
+	pf("/-- extract.go newExtractor: special keys; the sub-name prefix -/\ndef extractorKeysS : List String := %s\ndef extractorKeys : List (List Nat) := %s\n", leanStrList(ek), bytesList(ek))
+
+	// ---- "num" comparator: conditions and results in source order
+	if numFn == nil {
+		die("builtinOrders[\"num\"] is not a function literal")
+	}
+	var conds, rets []string
+	ast.Inspect(numFn.Body, func(n ast.Node) bool {
+		switch x := n.(type) {
+		case *ast.IfStmt:
+			conds = append(conds, strings.Join(strings.Fields(src(x.Cond)), " "))
+		case *ast.ReturnStmt:
+			if len(x.Results) == 1 {
+				rets = append(rets, intOf(x.Results[0], nil, "num result").String())
+			}
+		}
+		return true
+	})
+	pf("/-- builtinOrders[\"num\"]: `if` conditions and returned values, in source order -/\ndef numCondsS : List String := %s\ndef numResults : List Int := %s\n", leanStrList(conds), joinS(rets))
+	// ---- less
+	var lconds []string
+	lret := ""
+	ast.Inspect(lessFn.Body, func(n ast.Node) bool {
+		switch x := n.(type) {
+		case *ast.IfStmt:
+			lconds = append(lconds, strings.Join(strings.Fields(src(x.Cond)), " "))
+		case *ast.ReturnStmt:
+			lret += strings.Join(strings.Fields(src(x.Results[0])), " ") + ";"
+		}
+		return true
+	})
+	pf("def lessCondsS : List String := %s\ndef lessReturnsS : String := %s\n", leanStrList(lconds), leanStr(lret))
+	footer("ParseFacts", isOp, isStartOp, isSpace, next, qw, bw, re, rpu, quote, mk, bo, lessFn, newEx)
+}
+
+// ---------------------------------------------------------------- C16: texttab/table.go + benchtab/table.go
+
+func tabFacts(repo string) {
+	bt := parseFile(repo, "cmd/benchstat/internal/benchtab/table.go")
+	tt := parseFile(repo, "cmd/benchstat/internal/texttab/table.go")
+	toText := methodDecl(bt, "Table", "ToText")
+	toCSV := methodDecl(bt, "Table", "ToCSV")
+	sup := funcDecl(bt, "superscript")
+	span := methodDecl(tt, "Table", "Span")
+	lpad := methodDecl(tt, "align", "lpad")
+	header("TabFacts", "cmd/benchstat/internal/benchtab/table.go", "cmd/benchstat/internal/texttab/table.go")
+
+	groupConsts := func(fd *ast.FuncDecl, what string) (string, string, string) {
+		env := map[string]*big.Rat{}
+		localConsts(fd.Body, env, what)
+		get := func(n string) string {
+			v, ok := env[n]
+			if !ok || !v.IsInt() {
+				die("%s: constant %s not found", what, n)
+			}
+			return v.Num().String()
+		}
+		return get("labelCols"), get("centerCols"), get("deltaCols")
+	}
+	l, c, d := groupConsts(toText, "ToText")
+	pf("/-- ToText: labelCols, centerCols, deltaCols; ToCSV likewise -/\ndef textCols : Nat × Nat × Nat := (%s, %s, %s)\n", l, c, d)
+	l, c, d = groupConsts(toCSV, "ToCSV")
+	pf("def csvCols : Nat × Nat × Nat := (%s, %s, %s)\n", l, c, d)
+	startColText := func(fd *ast.FuncDecl) string {
+		fl := funcLit(fd.Body, "startCol")
+		return strings.Join(strings.Fields(src(fl.Body)), " ")
+	}
+	pf("def textStartColBody : String := %s\ndef csvStartColBody : String := %s\n", leanStr(startColText(toText)), leanStr(startColText(toCSV)))
+
+	// calls of o.Span / o.Cell in ToText with their literal arguments, in source order
+	alignCode := map[string]int{"texttab.Left": 0, "texttab.Center": 1, "texttab.Right": 2}
+	var calls []string
+	var margins []string
+	ast.Inspect(toText.Body, func(n ast.Node) bool {
+		ce, ok := n.(*ast.CallExpr)
+		if !ok {
+			return true
+		}
+		sel, ok := ce.Fun.(*ast.SelectorExpr)
+		if !ok || (sel.Sel.Name != "Span" && sel.Sel.Name != "Cell") {
+			return true
+		}
+		// the receiver chain must start at o
+		base := src(sel.X)
+		if base != "o" && !strings.HasPrefix(base, "o.") {
+			return true
+		}
+		args := ce.Args
+		spanN := "1"
+		if sel.Sel.Name == "Span" {
+			spanN = strings.Join(strings.Fields(src(args[0])), "")
+			args = args[1:]
+		}
+		val := "<expr>"
+		if v, ok := strLit(args[0]); ok {
+			val = v
+		}
+		al, mg := -1, "<none>"
+		for _, a := range args[1:] {
+			if c, ok := alignCode[src(a)]; ok {
+				al = c
+			} else if fun, margs, ok := callOf(a); ok && fun == "texttab.LeftMargin" {
+				mg, _ = strLit(margs[0])
+				margins = append(margins, bytesOf(mg))
+			}
+		}
+		calls = append(calls, fmt.Sprintf("(%s, %s, %d, %s)", leanStr(spanN), leanStr(val), al, leanStr(mg)))
+		return true
+	})
+	pf("/-- ToText: every o.Span / o.Cell call in source order: (span, literal value or <expr>, alignment 0:Left 1:Center 2:Right -1:default, left margin or <none>) -/\n")
+	pf("def textCalls : List (String × String × Int × String) := %s\n", joinS(calls))
+	pf("/-- the LeftMargin strings in source order (header span, right edge, unit span, vs base, right edge, range) -/\ndef margins : List (List Nat) := %s\n", joinS(margins))
+	var vsBase string
+	ast.Inspect(toText.Body, func(n ast.Node) bool {
+		if fun, args, ok := callOfNode(n); ok && fun == "o.Span" && len(args) >= 2 && src(args[0]) == "deltaCols" {
+			vsBase, _ = strLit(args[1])
+		}
+		return true
+	})
+	pf("def vsBase : List Nat := %s\n", bytesOf(vsBase))
+	shrinkLoop := ""
+	ast.Inspect(toText.Body, func(n ast.Node) bool {
+		if fs, ok := n.(*ast.ForStmt); ok && strings.Contains(src(fs.Body), "SetShrink") {
+			shrinkLoop = strings.Join(strings.Fields(src(fs.Init)+"; "+src(fs.Cond)+"; "+src(fs.Post)+" { "+src(fs.Body.List[0])+" }"), " ")
+		}
+		return true
+	})
+	pf("def shrinkLoop : String := %s\n", leanStr(shrinkLoop))
+	var fmts []string
+	ast.Inspect(toText.Body, func(n ast.Node) bool {
+		if fun, args, ok := callOfNode(n); ok && (fun == "fmt.Fprintf" || fun == "fmt.Sprintf") {
+			for _, a := range args {
+				if v, ok := strLit(a); ok && strings.Contains(v, "%") {
+					fmts = append(fmts, v)
+				}
+			}
+		}
+		return true
+	})
+	pf("/-- ToText formats: the summary ratio and the footnote line -/\ndef textFormats : List String := %s\n", leanStrList(fmts))
+	for _, v := range fmts {
+		if strings.HasPrefix(v, "%s") {
+			pf("def footnoteTokens : List (Nat × Nat × Nat) := %s\n", sprintfTokens(v, "footnote"))
+		}
+	}
+	joinSep := ""
+	ast.Inspect(toText.Body, func(n ast.Node) bool {
+		if fun, args, ok := callOfNode(n); ok && fun == "strings.Join" && len(args) == 2 {
+			joinSep, _ = strLit(args[1])
+		}
+		return true
+	})
+	pf("def footnoteJoin : List Nat := %s\n", bytesOf(joinSep))
+
+	// superscript
+	sdE, ok := varInit(bt, "superDigits").(*ast.CallExpr)
+	if !ok {
+		die("superDigits")
+	}
+	sd, _ := strLit(sdE.Args[0])
+	var digs []string
+	for _, r := range sd {
+		digs = append(digs, bytesOf(string(r)))
+	}
+	pf("/-- superDigits, one entry per rune (UTF-8 bytes) -/\ndef superDigits : List (List Nat) := %s\n", joinS(digs))
+	bufN, base := "", []string{}
+	ast.Inspect(sup.Body, func(n ast.Node) bool {
+		switch x := n.(type) {
+		case *ast.ArrayType:
+			if x.Len != nil {
+				bufN = natOf(x.Len, nil, "superscript buffer")
+			}
+		case *ast.BinaryExpr:
+			if x.Op == token.REM && isIdent(x.X, "i") {
+				base = append(base, natOf(x.Y, nil, "superscript base"))
+			}
+		case *ast.AssignStmt:
+			if x.Tok == token.QUO_ASSIGN && isIdent(x.Lhs[0], "i") {
+				base = append(base, natOf(x.Rhs[0], nil, "superscript base"))
+			}
+		}
+		return true
+	})
+	pf("def superBuf : Nat := %s\ndef superBase : List Nat := %s\n", bufN, joinS(base))
+
+	// CSV
+	var csvNameBase, csvLits []string
+	csvBuf := ""
+	csvFmt := ""
+	ast.Inspect(toCSV.Body, func(n ast.Node) bool {
+		switch x := n.(type) {
+		case *ast.BinaryExpr:
+			if x.Op == token.REM && isIdent(x.X, "x") {
+				csvNameBase = append(csvNameBase, natOf(x.Y, nil, "colName base"))
+			}
+			if x.Op == token.ADD {
+				if bl, ok := x.X.(*ast.BasicLit); ok && bl.Kind == token.CHAR {
+					csvNameBase = append(csvNameBase, intOf(bl, nil, "colName letter").String())
+				}
+			}
+		case *ast.AssignStmt:
+			if x.Tok == token.QUO_ASSIGN && isIdent(x.Lhs[0], "x") {
+				csvNameBase = append(csvNameBase, natOf(x.Rhs[0], nil, "colName base"))
+			}
+			if len(x.Rhs) == 1 {
+				if bl, ok := x.Rhs[0].(*ast.BasicLit); ok && bl.Kind == token.CHAR {
+					csvNameBase = append(csvNameBase, intOf(bl, nil, "colName letter").String())
+				}
+			}
+		case *ast.CallExpr:
+			if src(x.Fun) == "make" && len(x.Args) == 2 && src(x.Args[0]) == "[]byte" {
+				csvBuf = natOf(x.Args[1], nil, "colName buffer")
+			}
+			if src(x.Fun) == "fmt.Fprintf" {
+				csvFmt, _ = strLit(x.Args[1])
+			}
+			if src(x.Fun) == "append" {
+				for _, a := range x.Args[1:] {
+					if v, ok := strLit(a); ok {
+						csvLits = append(csvLits, v)
+					}
+				}
+			}
+		}
+		return true
+	})
+	pf("/-- ToCSV cell reference: [letter 'A', x %% b, x /= b, letter for the empty name], buffer; warning line format -/\n")
+	pf("def csvNameParts : List Nat := %s\ndef csvNameBuf : Nat := %s\ndef csvWarnTokens : List (Nat × Nat × Nat) := %s\n", joinS(csvNameBase), csvBuf, sprintfTokens(csvFmt, "csv warning"))
+	pf("/-- ToCSV: literal cells appended to rows, in source order -/\ndef csvLiteralsS : List String := %s\ndef csvLiterals : List (List Nat) := %s\n", leanStrList(csvLits), bytesList(csvLits))
+
+	// texttab
+	defMargin := ""
+	emptyMargin := ""
+	ast.Inspect(span.Body, func(n ast.Node) bool {
+		if as, ok := n.(*ast.AssignStmt); ok && len(as.Lhs) == 1 && isIdent(as.Lhs[0], "lMargin") {
+			if v, ok := strLit(as.Rhs[0]); ok {
+				if as.Tok == token.DEFINE {
+					defMargin = v
+				} else {
+					emptyMargin = v
+				}
+			}
+		}
+		return true
+	})
+	cond := mustIf(span.Body, "Span default margin", func(c string) bool { return strings.Contains(c, "curCol") })
+	pf("/-- texttab Span: default left margin, and the one used when `%s` -/\ndef defaultMargin : List Nat := %s\ndef noMargin : List Nat := %s\ndef noMarginCond : String := %s\n",
+		strings.Join(strings.Fields(src(cond.Cond)), " "), bytesOf(defMargin), bytesOf(emptyMargin), leanStr(strings.Join(strings.Fields(src(cond.Cond)), " ")))
+	var padFmts []string
+	half := ""
+	ast.Inspect(lpad.Body, func(n ast.Node) bool {
+		if fun, args, ok := callOfNode(n); ok && fun == "fmt.Sprintf" {
+			v, _ := strLit(args[0])
+			padFmts = append(padFmts, v)
+		}
+		if be, ok := n.(*ast.BinaryExpr); ok && be.Op == token.QUO {
+			half = natOf(be.Y, nil, "centre divisor")
+		}
+		return true
+	})
+	pf("/-- align.lpad: formats of the centre / right cases, the centre divisor -/\ndef padFormats : List String := %s\ndef centreDivisor : Nat := %s\n", leanStrList(padFmts), half)
+	footer("TabFacts", toText, toCSV, sup, span, lpad)
+}
+
 func main() {
 	if len(os.Args) != 3 {
 		fmt.Fprintln(os.Stderr, "usage: extract <FactsName> <repo>")
@@ -3024,6 +3694,12 @@ func main() {
 		dbFacts(os.Args[2])
 	case "NumFacts":
 		numFacts(os.Args[2])
+	case "ReadFacts":
+		readFacts(os.Args[2])
+	case "ParseFacts":
+		parseFacts(os.Args[2])
+	case "TabFacts":
+		tabFacts(os.Args[2])
 	default:
 		fmt.Fprintln(os.Stderr, "unknown facts", os.Args[1])
 		os.Exit(2)
